@@ -144,6 +144,21 @@ def coordinate_display_formats(repo):
     return True, "Display impls are format strings of exactly the parsed pieces: " + ", ".join(want.values())
 
 
+@frame("cursor_fields_written_only_by_primitives")
+def cursor_fields_written_only_by_primitives(repo):
+    """Unit `cursor` proves that Cursor::new establishes and every primitive preserves the representation invariant; this checks that nothing in
+    lexer/mod.rs writes the cursor's private state behind their back: no assignment to self.index / self.pending / self.chars, and self.offset is
+    assigned only in `eof` (State::Start: after the last character, when the lexer finishes)."""
+    sf, mask = _non_test(repo, "crates/apollo-parser/src/lexer/mod.rs")
+    bad = [m.group(0) for m in re.finditer(r"self\s*\.\s*(index|pending|chars)\s*(=(?!=)|\.take\(|\.next\()", mask)]
+    offs = [m.start() for m in re.finditer(r"self\s*\.\s*offset\s*=(?!=)", mask)]
+    a, b = _fn_span(sf, mask, "fn", "eof", r"Cursor<'a>")
+    outside = [o for o in offs if not (a <= o < b)]
+    if bad or outside or len(offs) > 1:
+        return False, "lexer/mod.rs writes cursor state directly: %s, offset assignments outside eof: %d (total %d)" % (bad, len(outside), len(offs))
+    return True, "lexer/mod.rs changes index / pending / chars only through Cursor's primitives; the single `self.offset = ..` is in eof (end of input)"
+
+
 @frame("peek_while_is_the_plain_loop")
 def peek_while_is_the_plain_loop(repo):
     """The unit inlines the combinators peek_while / peek_while_kind / parse_separated_list at every call site in the grammar; this checks that
